@@ -93,6 +93,9 @@ class XTyper:
             return a
         if a[0] == "NoValue":
             return b
+        if a[0] == b[0] == "Map":
+            # two ways of building the map: keys must live in the same space; values may differ (then the value space is mixed)
+            return ("Map", a[1] if a[1] == b[1] else "MIXED", a[2] if a[2] == b[2] else "MIXED", bool(a[3] and b[3]), a[4] if a[4] == b[4] else None)
         if a[0] == b[0] == "Graph":
             return a
         return U(f"join of {a[0]} and {b[0]}")
@@ -617,6 +620,8 @@ def _incremental_bijection(ctx, fi: FuncInfo, call: ast.Call):
     if pcs.kind != "tucan":
         return None, "pool builder is not a tucan function"
     ok, why = _pool_builder_is_partition(ctx, pcs.target)
+    if ok is None:
+        return None, why
     if not ok:
         return False, why
     # totality: assert len(M) == len(G.nodes) dominates the relabel
@@ -643,13 +648,15 @@ def _pool_builder_is_partition(ctx, bf: FuncInfo):
     g = params[0]
     appends = [n for n in own_walk(fn) if isinstance(n, ast.Call) and isinstance(n.func, ast.Attribute) and n.func.attr in ("append", "add")]
     if len(appends) != 1:
-        return False, f"{bf.name}: labels are appended at {len(appends)} sites; cannot show each node lands in exactly one pool"
+        return None, f"{bf.name}: labels are appended at {len(appends)} sites; the pool construction is not one of the recognised shapes"
     ap = appends[0]
     loop = None
     for n in own_walk(fn):
         if isinstance(n, ast.For) and any(x is ap for x in ast.walk(n)):
             loop = n
-    if loop is None or norm(loop.iter) not in (g, f"{g}.nodes", f"{g}.nodes()", f"list({g})", f"sorted({g})") or not isinstance(loop.target, ast.Name):
+    if loop is None or not isinstance(loop.target, ast.Name):
+        return None, f"{bf.name}: the appending loop is not recognised"
+    if norm(loop.iter) not in (g, f"{g}.nodes", f"{g}.nodes()", f"list({g})", f"sorted({g})", f"sorted({g}.nodes)", f"list({g}.nodes)"):
         return False, f"{bf.name}: the appending loop does not run over every node of the graph"
     if len(ap.args) != 1 or norm(ap.args[0]) != loop.target.id:
         return False, f"{bf.name}: what is appended is not the node itself"
